@@ -180,6 +180,10 @@ class SpecMixin:
             key = a[0].value
             es = [e for e in st.trace if e.name == "loop:" + key or e.name.startswith("loop:" + key + "#")]
             return B(z3.Or(*[e.g() for e in es]) if es else z3.BoolVal(False))
+        if f == "maybe_effect":     # the effect occurred on this path, or inside a loop that was reached (or is being executed) on this path
+            name = a[0].value
+            es = [e for e in st.trace if e.name == name or name in (e.inner or ())]
+            return B(z3.Or(*[e.g() for e in es]) if es else z3.BoolVal(False))
         if f == "effect_arg_nth":   # effect_arg_nth('name', n, idx): idx-th argument of the n-th occurrence (0-based) on this path
             name, nth, idx = a[0].value, a[1].value, a[2].value
             es = [e for e in st.trace if e.name == name]
